@@ -45,6 +45,7 @@ UNITS = {
     "s": (F(1), (F(0), F(1), F(0))),
     "kg": (F(1), None),                       # only used by template nodes (never in arithmetic)
     "[len]": (F(2), (F(1), F(0), F(0))),
+    "[hand]": (F(1, 10), (F(1), F(0), F(0))),    # second custom unit, defined in a non-base unit: 10 cm
     "rad": (F(1), (F(0), F(0), F(1))),
     "mrad": (F(1, 1000), (F(0), F(0), F(1))),
     "deg": (F("0.017453292"), (F(0), F(0), F(1))),
@@ -119,8 +120,10 @@ def num_features(a, out=None):
     out = set() if out is None else out
     k = a[0]
     if k == "lit":
-        if a[2] == "[len]":
+        if a[2] in ("[len]", "[hand]"):
             out.add("custom-unit-literal")
+        if a[2] == "[hand]":
+            out.add("custom-unit-defined-in-non-base-unit")
         if a[2] in ("deg", "rad", "mrad"):
             out.add("angle-unit:" + a[2])
         if a[1].startswith("-"):
@@ -272,7 +275,7 @@ def unit_factor(unit):
     import re
     fac = F(1)
     for part in unit.split("*"):
-        m = re.fullmatch(r"(\[len\]|cm|mm|m|s)(-?\d+)?", part)
+        m = re.fullmatch(r"(\[len\]|\[hand\]|cm|mm|m|s)(-?\d+)?", part)
         if not m:
             raise ValueError(unit)
         fac *= UNITS[m.group(1)][0] ** int(m.group(2) or 1)
@@ -344,8 +347,10 @@ def log_features(a, env, out=None):
                 kinds.append(env.nodes[o[1]][0] + "-node")
             elif o[0] == "num":
                 kinds.append("decimal-literal" if any(c in o[1] for c in ".eE") else "integer-literal")
-                if o[2] == "[len]":
+                if o[2] in ("[len]", "[hand]"):
                     out.add("custom-unit-literal")
+                if o[2] == "[hand]":
+                    out.add("custom-unit-defined-in-non-base-unit")
             else:
                 kinds.append("bool-operand")
         out.add("operands:" + "/".join(sorted(kinds)))
